@@ -32,6 +32,8 @@ type Options struct {
 	ConcreteVals map[string]uint64 // concrete mode: input name -> value (translator validation)
 	Concrete     bool
 	Tier         int
+	MaxSeconds   int
+	Progress     bool
 }
 
 type Input struct {
@@ -163,6 +165,29 @@ func (e *Engine) Run() (*HarnessResult, error) {
 		nw = 1
 	}
 	errs := make(chan error, nw)
+	doneCh := make(chan struct{})
+	go func() {
+		tick := time.NewTicker(10 * time.Second)
+		defer tick.Stop()
+		for {
+			select {
+			case <-doneCh:
+				return
+			case <-tick.C:
+				e.mu.Lock()
+				el := time.Since(t0).Seconds()
+				if e.Opt.Progress {
+					fmt.Fprintf(os.Stderr, "[%s] %.0fs paths=%d queued=%d active=%d statuses=%v\n", e.Opt.Harness, el, e.res.Paths, len(e.work), e.active, e.res.Statuses)
+				}
+				if e.Opt.MaxSeconds > 0 && int(el) > e.Opt.MaxSeconds && !e.stop {
+					e.res.PathLimit = true
+					e.stop = true
+					e.cond.Broadcast()
+				}
+				e.mu.Unlock()
+			}
+		}
+	}()
 	for i := 0; i < nw; i++ {
 		wg.Add(1)
 		go func(wid int) {
@@ -196,6 +221,7 @@ func (e *Engine) Run() (*HarnessResult, error) {
 		}(i)
 	}
 	wg.Wait()
+	close(doneCh)
 	select {
 	case err := <-errs:
 		return nil, err
@@ -368,6 +394,7 @@ type Path struct {
 	storeLog []string
 	ghost    map[string]Value
 	inInit   bool
+	payload  map[*Term]Value
 	pcDirty  bool // assumptions added since the last satisfiability check
 }
 
@@ -377,7 +404,7 @@ func newPath(e *Engine, sol *Solver, fn *ssa.Function, prefix []int) *Path {
 		globals: map[*ssa.Global]*Value{}, sideTab: map[*Value]Value{},
 		asserts: map[string]*AssertStat{}, funcs: map[string]int{}, stubs: map[string]int{},
 		finished: make(chan struct{}), kill: make(chan struct{}),
-		timers: map[string]int{}, ghost: map[string]Value{},
+		timers: map[string]int{}, ghost: map[string]Value{}, payload: map[*Term]Value{},
 	}
 	if sol != nil {
 		sol.Reset()
